@@ -38,10 +38,14 @@ func (n *Node) MarshalJSON() ([]byte, error) {
 		}
 		return json.Marshal(node{ID: n.ID})
 	}
-	n.Attributes["id"] = n.ID
-	b, err := json.Marshal(n.Attributes)
-	delete(n.Attributes, "id")
-	return b, err
+	// Work on a copy: the receiver's map may be shared,
+	// and the fixed fields are not attributes of the caller's.
+	attrs := make(map[string]interface{}, len(n.Attributes)+4)
+	for k, v := range n.Attributes {
+		attrs[k] = v
+	}
+	attrs["id"] = n.ID
+	return json.Marshal(attrs)
 }
 
 // UnmarshalJSON implements the json.Unmarshaler interface.
@@ -86,14 +90,16 @@ func (e *Edge) MarshalJSON() ([]byte, error) {
 		}
 		return json.Marshal(edge{ID: e.ID, Source: e.Source, Target: e.Target})
 	}
-	e.Attributes["id"] = e.ID
-	e.Attributes["source"] = e.Source
-	e.Attributes["target"] = e.Target
-	b, err := json.Marshal(e.Attributes)
-	delete(e.Attributes, "id")
-	delete(e.Attributes, "source")
-	delete(e.Attributes, "target")
-	return b, err
+	// Work on a copy: the receiver's map may be shared,
+	// and the fixed fields are not attributes of the caller's.
+	attrs := make(map[string]interface{}, len(e.Attributes)+4)
+	for k, v := range e.Attributes {
+		attrs[k] = v
+	}
+	attrs["id"] = e.ID
+	attrs["source"] = e.Source
+	attrs["target"] = e.Target
+	return json.Marshal(attrs)
 }
 
 // UnmarshalJSON implements the json.Unmarshaler interface.
